@@ -31,13 +31,19 @@ class Prober:
 
     def many(self, words):
         todo = [w for w in dict.fromkeys(words) if w not in self.cache]
-        if todo:
+        # in batches of at most 16 KiB of request text: writing everything before reading anything deadlocks on the pipes once requests and
+        # answers together exceed their buffers (request lines that carry a whole slice are several KiB each)
+        while todo:
+            batch, size = [], 0
+            while todo and (not batch or size + len(self.mk(todo[0])) < 16384) and len(batch) < 64:
+                size += len(self.mk(todo[0])) + 1
+                batch.append(todo.pop(0))
             pr = _proc(self.binary)
-            for w in todo:
+            for w in batch:
                 pr.stdin.write(self.mk(w) + "\n")
             pr.stdin.flush()
-            self.calls += len(todo)
-            for w in todo:
+            self.calls += len(batch)
+            for w in batch:
                 line = pr.stdout.readline().rstrip("\n")
                 self.cache[w] = self.parse("panic" if line.startswith("panic wleft=") else line)
         return [self.cache[w] for w in words]
